@@ -1,0 +1,378 @@
+//go:build verif
+
+package jd
+
+// Verification hooks (build tag "verif"). Add-only: nothing outside this file
+// refers to it and without the tag the file is not compiled. The hooks give the
+// external verification harness (/verif) a lossless, order-defined encoding of
+// nodes and diffs including their dynamic Go types, and access to hash codes.
+
+import (
+	"encoding/hex"
+	"fmt"
+	"math"
+	"sort"
+	"strconv"
+	"strings"
+)
+
+// VerifHashCode exposes hashCode.
+func VerifHashCode(n JsonNode, options []Option) [8]byte {
+	return n.hashCode(options)
+}
+
+// VerifIdent exposes ident for objects and hashCode for everything else.
+func VerifIdent(n JsonNode, options []Option) [8]byte {
+	if o, ok := n.(jsonObject); ok {
+		return o.ident(options)
+	}
+	return n.hashCode(options)
+}
+
+// VerifRawJson renders raw() of a node with encoding/json.
+func VerifRaw(n JsonNode) interface{} {
+	return n.raw()
+}
+
+// VerifEncodeNode writes the tagged wire encoding of a node.
+func VerifEncodeNode(n JsonNode) string {
+	var b strings.Builder
+	verifEncNode(&b, n)
+	return b.String()
+}
+
+func verifHexStr(s string) string {
+	return hex.EncodeToString([]byte(s))
+}
+
+func verifEncNode(b *strings.Builder, n JsonNode) {
+	switch t := n.(type) {
+	case nil:
+		b.WriteString("NIL")
+	case voidNode:
+		b.WriteString("V")
+	case jsonNull:
+		b.WriteString("N")
+	case jsonBool:
+		if t {
+			b.WriteString("T")
+		} else {
+			b.WriteString("F")
+		}
+	case jsonNumber:
+		fmt.Fprintf(b, "#%016x", math.Float64bits(float64(t)))
+	case jsonString:
+		b.WriteString("\"")
+		b.WriteString(verifHexStr(string(t)))
+	case jsonArray:
+		verifEncArr(b, "[r", []JsonNode(t))
+	case jsonList:
+		verifEncArr(b, "[l", []JsonNode(t))
+	case jsonSet:
+		verifEncArr(b, "[s", []JsonNode(t))
+	case jsonMultiset:
+		verifEncArr(b, "[m", []JsonNode(t))
+	case jsonObject:
+		verifEncObj(b, t)
+	default:
+		fmt.Fprintf(b, "UNKNOWN:%T", n)
+	}
+}
+
+func verifEncArr(b *strings.Builder, open string, l []JsonNode) {
+	b.WriteString(open)
+	for _, e := range l {
+		b.WriteString(" ")
+		verifEncNode(b, e)
+	}
+	b.WriteString(" ]")
+}
+
+func verifEncObj(b *strings.Builder, o map[string]JsonNode) {
+	keys := make([]string, 0, len(o))
+	for k := range o {
+		keys = append(keys, k)
+	}
+	sort.Strings(keys)
+	b.WriteString("{")
+	for _, k := range keys {
+		b.WriteString(" \"")
+		b.WriteString(verifHexStr(k))
+		b.WriteString(" ")
+		verifEncNode(b, o[k])
+	}
+	b.WriteString(" }")
+}
+
+func verifEncNodes(b *strings.Builder, l []JsonNode) {
+	for _, e := range l {
+		b.WriteString(" ")
+		verifEncNode(b, e)
+	}
+}
+
+// VerifEncodePath writes the wire encoding of a path (elements separated by spaces).
+func VerifEncodePath(p Path) string {
+	var b strings.Builder
+	verifEncPath(&b, p)
+	return b.String()
+}
+
+func verifEncPath(b *strings.Builder, p Path) {
+	for _, e := range p {
+		b.WriteString(" ")
+		switch t := e.(type) {
+		case PathKey:
+			b.WriteString("K\"")
+			b.WriteString(verifHexStr(string(t)))
+		case PathIndex:
+			b.WriteString("I")
+			b.WriteString(strconv.Itoa(int(t)))
+		case PathSet:
+			b.WriteString("S")
+		case PathMultiset:
+			b.WriteString("M")
+		case PathSetKeys:
+			b.WriteString("SK ")
+			verifEncObj(b, t)
+		case PathMultisetKeys:
+			b.WriteString("MK ")
+			verifEncObj(b, t)
+		default:
+			fmt.Fprintf(b, "UNKNOWN:%T", e)
+		}
+	}
+}
+
+// VerifEncodeDiff writes the wire encoding of a diff.
+func VerifEncodeDiff(d Diff) string {
+	var b strings.Builder
+	b.WriteString("<")
+	for _, e := range d {
+		b.WriteString(" ( ")
+		if e.Metadata.Merge {
+			b.WriteString("m")
+		} else {
+			b.WriteString("s")
+		}
+		verifEncPath(&b, e.Path)
+		b.WriteString(" |")
+		verifEncNodes(&b, e.Before)
+		b.WriteString(" |")
+		verifEncNodes(&b, e.Remove)
+		b.WriteString(" |")
+		verifEncNodes(&b, e.Add)
+		b.WriteString(" |")
+		verifEncNodes(&b, e.After)
+		b.WriteString(" )")
+	}
+	b.WriteString(" >")
+	return b.String()
+}
+
+type verifDec struct {
+	toks []string
+	pos  int
+}
+
+func (d *verifDec) next() (string, error) {
+	if d.pos >= len(d.toks) {
+		return "", fmt.Errorf("unexpected end of tokens")
+	}
+	t := d.toks[d.pos]
+	d.pos++
+	return t, nil
+}
+
+func (d *verifDec) peek() string {
+	if d.pos >= len(d.toks) {
+		return ""
+	}
+	return d.toks[d.pos]
+}
+
+func verifUnhex(s string) (string, error) {
+	b, err := hex.DecodeString(s)
+	if err != nil {
+		return "", err
+	}
+	return string(b), nil
+}
+
+func (d *verifDec) node() (JsonNode, error) {
+	t, err := d.next()
+	if err != nil {
+		return nil, err
+	}
+	switch {
+	case t == "V":
+		return voidNode{}, nil
+	case t == "N":
+		return jsonNull(nil), nil
+	case t == "T":
+		return jsonBool(true), nil
+	case t == "F":
+		return jsonBool(false), nil
+	case strings.HasPrefix(t, "#"):
+		u, err := strconv.ParseUint(t[1:], 16, 64)
+		if err != nil {
+			return nil, err
+		}
+		return jsonNumber(math.Float64frombits(u)), nil
+	case strings.HasPrefix(t, "\""):
+		s, err := verifUnhex(t[1:])
+		if err != nil {
+			return nil, err
+		}
+		return jsonString(s), nil
+	case t == "[r" || t == "[l" || t == "[s" || t == "[m":
+		l := []JsonNode{}
+		for d.peek() != "]" {
+			e, err := d.node()
+			if err != nil {
+				return nil, err
+			}
+			l = append(l, e)
+		}
+		d.pos++
+		switch t {
+		case "[r":
+			return jsonArray(l), nil
+		case "[l":
+			return jsonList(l), nil
+		case "[s":
+			return jsonSet(l), nil
+		default:
+			return jsonMultiset(l), nil
+		}
+	case t == "{":
+		o := newJsonObject()
+		for d.peek() != "}" {
+			kt, err := d.next()
+			if err != nil {
+				return nil, err
+			}
+			if !strings.HasPrefix(kt, "\"") {
+				return nil, fmt.Errorf("bad key token %q", kt)
+			}
+			k, err := verifUnhex(kt[1:])
+			if err != nil {
+				return nil, err
+			}
+			v, err := d.node()
+			if err != nil {
+				return nil, err
+			}
+			o[k] = v
+		}
+		d.pos++
+		return o, nil
+	}
+	return nil, fmt.Errorf("bad node token %q", t)
+}
+
+func (d *verifDec) nodesUntil(stop string) ([]JsonNode, error) {
+	l := []JsonNode{}
+	for d.peek() != stop {
+		if d.peek() == "" {
+			return nil, fmt.Errorf("missing %q", stop)
+		}
+		e, err := d.node()
+		if err != nil {
+			return nil, err
+		}
+		l = append(l, e)
+	}
+	d.pos++
+	return l, nil
+}
+
+// VerifDecodeNode reads the wire encoding of a node, building the typed Go values directly.
+func VerifDecodeNode(s string) (JsonNode, error) {
+	d := &verifDec{toks: strings.Fields(s)}
+	n, err := d.node()
+	if err != nil {
+		return nil, err
+	}
+	if d.pos != len(d.toks) {
+		return nil, fmt.Errorf("trailing tokens")
+	}
+	return n, nil
+}
+
+// VerifDecodeDiff reads the wire encoding of a diff.
+func VerifDecodeDiff(s string) (Diff, error) {
+	d := &verifDec{toks: strings.Fields(s)}
+	t, err := d.next()
+	if err != nil || t != "<" {
+		return nil, fmt.Errorf("expected <")
+	}
+	diff := Diff{}
+	for d.peek() != ">" {
+		t, err := d.next()
+		if err != nil || t != "(" {
+			return nil, fmt.Errorf("expected (")
+		}
+		m, err := d.next()
+		if err != nil {
+			return nil, err
+		}
+		e := DiffElement{Metadata: Metadata{Merge: m == "m"}}
+		e.Path = Path{}
+		for d.peek() != "|" {
+			pt, err := d.next()
+			if err != nil {
+				return nil, err
+			}
+			switch {
+			case strings.HasPrefix(pt, "K\""):
+				k, err := verifUnhex(pt[2:])
+				if err != nil {
+					return nil, err
+				}
+				e.Path = append(e.Path, PathKey(k))
+			case strings.HasPrefix(pt, "I"):
+				i, err := strconv.Atoi(pt[1:])
+				if err != nil {
+					return nil, err
+				}
+				e.Path = append(e.Path, PathIndex(i))
+			case pt == "S":
+				e.Path = append(e.Path, PathSet{})
+			case pt == "M":
+				e.Path = append(e.Path, PathMultiset{})
+			case pt == "SK" || pt == "MK":
+				n, err := d.node()
+				if err != nil {
+					return nil, err
+				}
+				o, ok := n.(jsonObject)
+				if !ok {
+					return nil, fmt.Errorf("expected object after %v", pt)
+				}
+				if pt == "SK" {
+					e.Path = append(e.Path, PathSetKeys(o))
+				} else {
+					e.Path = append(e.Path, PathMultisetKeys(o))
+				}
+			default:
+				return nil, fmt.Errorf("bad path token %q", pt)
+			}
+		}
+		d.pos++
+		if e.Before, err = d.nodesUntil("|"); err != nil {
+			return nil, err
+		}
+		if e.Remove, err = d.nodesUntil("|"); err != nil {
+			return nil, err
+		}
+		if e.Add, err = d.nodesUntil("|"); err != nil {
+			return nil, err
+		}
+		if e.After, err = d.nodesUntil(")"); err != nil {
+			return nil, err
+		}
+		diff = append(diff, e)
+	}
+	return diff, nil
+}
